@@ -281,11 +281,11 @@ theorem generic_route_leaves_modules_alone (H : Str → Str) (a : AState) (tx : 
   · simp [hb, rejected]
   · simp only [hb, hr, Bool.false_eq_true, if_false]
     unfold deliverGeneric
-    by_cases hc : (rejectTopLevel a.s.h tx.msgs || !limiterOk false 1 tx.msgs || !sigsOk tx) = true
+    by_cases hc : (rejectTopLevel a.s.h tx.msgs || !limiterOk false 1 tx.msgs || !sigsOk tx || !granterOk tx) = true
     · simp [hc, rejected]
     · simp only [hc, Bool.false_eq_true, if_false]
       simp only [Bool.or_eq_true, not_or, Bool.not_eq_true', Bool.not_eq_false] at hc
-      obtain ⟨⟨hrej, hlim⟩, _⟩ := hc
+      obtain ⟨⟨⟨hrej, hlim⟩, _⟩, _⟩ := hc
       have hlim' : limiterList false 1 tx.msgs = true := by
         unfold limiterOk at hlim
         simpa using hlim
